@@ -249,6 +249,10 @@ def mqtt_send_case(ctx, case: dict) -> None:
     ctx.clause("mqtt-send-classified")
     if isinstance(result, LogicalDeadlock):
         ctx.violation("mqtt-send-deadlock", "logical deadlock", case)
+    elif isinstance(result, BaseException):
+        from ..harness import scenario_exception
+
+        scenario_exception(ctx, result, case, "mqtt-send")
     elif case["publish_fails"]:
         if log["outcome"] == "ok":
             ctx.violation("silently-discarded", f"send({case['fields']}) over MQTT returned normally although the broker refused "
